@@ -55,6 +55,8 @@ type c12Case struct {
 	NFiles   int     `json:"nfiles"`
 	NVariant int     `json:"nvariants"`
 	Ops      []c12Op `json:"ops"`
+	// ReadEachStep: the cached getters were called after every update
+	ReadEachStep bool `json:"getters_read_after_every_update,omitempty"`
 }
 
 // canonical view of a workspace
@@ -183,19 +185,36 @@ func canonStrMap(m map[string]string) string {
 }
 
 // c12Run replays ops on a live workspace and returns the live and the rebuilt view.
+// c12Run replays the updates on one workspace. With readEachStep the cached
+// getters are called after the initial load and after every update, as a server
+// does that analyses a document after every change (caches are then filled
+// under the superseded contents).
 func c12Run(dir string, cs c12Case) (live, fresh c12View, liveW *workspace.Workspace, disk []int) {
+	return c12RunMode(dir, cs, false)
+}
+
+func c12RunMode(dir string, cs c12Case, readEachStep bool) (live, fresh c12View, liveW *workspace.Workspace, disk []int) {
 	disk = make([]int, cs.NFiles)
 	for i := 0; i < cs.NFiles; i++ {
 		_ = os.WriteFile(filepath.Join(dir, c12Names[i]), []byte(c12Content(cs.NFiles, i, 0)), 0o644)
 	}
 	liveW = workspace.NewWorkspace(dir, include.NewLoader())
 	_ = liveW.Initialize()
+	read := func() {
+		if readEachStep {
+			liveW.GetDeclaredAccounts()
+			liveW.GetDeclaredCommodities()
+			liveW.GetCommodityFormats()
+		}
+	}
+	read()
 	for _, op := range cs.Ops {
 		disk[op.File] = op.Variant
 		content := c12Content(cs.NFiles, op.File, op.Variant)
 		path := filepath.Join(dir, c12Names[op.File])
 		_ = os.WriteFile(path, []byte(content), 0o644)
 		liveW.UpdateFile(path, content)
+		read()
 	}
 	live = c12ViewOf(dir, liveW)
 	fw := workspace.NewWorkspace(dir, include.NewLoader())
@@ -341,7 +360,7 @@ func checkC12(c *core.Ctx) {
 		}
 		dir := filepath.Join(c.Scratch, "c12r")
 		_ = os.MkdirAll(dir, 0o755)
-		live, fresh, _, disk := c12Run(dir, cs)
+		live, fresh, _, disk := c12RunMode(dir, cs, cs.ReadEachStep)
 		c12Compare(c, dir, cs, live, fresh, disk)
 		return
 	}
@@ -384,6 +403,11 @@ func checkC12(c *core.Ctx) {
 				c.Res.Nontrivial++
 			}
 			good := c12Compare(c, dir, cs, live, fresh, disk)
+			// the same history with the cached getters read after every update
+			warm := cs
+			warm.ReadEachStep = true
+			wl, wf, _, wd := c12RunMode(dir, warm, true)
+			c12Compare(c, dir, warm, wl, wf, wd)
 			if good && sampled < 2 && len(cs.Ops) >= 3 {
 				sampled++
 				c.Sample(map[string]any{"files": w.nfiles, "updates": cs.Ops, "members": live.Members})
